@@ -447,6 +447,31 @@ var Aliasing = func() []struct{ Src, In string } {
 	} {
 		out = append(out, struct{ Src, In string }{"(" + src + "), .", objIn})
 	}
+	// updates through several paths where the function of a later path receives a slice (a view
+	// sharing its elements with the array being rebuilt) and its result keeps that view
+	multi := []string{
+		`(.[0], .[1:])`, `(.[0], .[1:2])`, `(.[0], .[0:2])`, `(.[1:], .[0])`, `(.[1:3], .[1:3])`, `(.[0], .[1:], .[1])`, `(.[0], .[2:4], .[1:3])`, `(.[-1], .[:-1])`, `(.[0], .[1:][0:1])`,
+		`.[1:]`, `(.[0] | select(. == 99) // (.[0], .[:2]))`, `(.[0], (.[1:] | select(length > 1)))`,
+	}
+	funcs := []string{
+		`[.]`, `[., .]`, `[[.]]`, `[.[0:1], .[1:2]]?`, `[.[1:]]?`, `{a: .}`, `. + [.]`, `[.[]?]`, `.`, `(.[1:] + .[:1])?`, `[.] | .[0][0] = 7`, `. as $v | [$v, $v]`, `empty`, `(., [.])`,
+	}
+	for _, m := range multi {
+		for _, f := range funcs {
+			for _, op := range []string{"|=", "+=", "="} {
+				if op != "|=" && f != "[.]" && f != "[., .]" && f != "." {
+					continue // the right-hand side of `=` and `+=` is evaluated before the reduction starts
+				}
+				out = append(out, struct{ Src, In string }{"(" + m + " " + op + " " + f + "), .", arrIn})
+			}
+		}
+	}
+	for _, src := range []string{
+		`(.k[0], .k[1:]) |= [.]`, `(.a.p, .k[1:2]) |= [.]`, `(.k[0], .k[0:1]) |= [., .]`, `.k |= ((.[0], .[1:]) |= [., .])`, `(.k, .l) |= [.]`, `(.k[0], .k[1:3]) |= [.[0:1], .[1:2]]`, `map_values(arrays |= ((.[0], .[1:]) |= [.]))`, `(.k[0], .k[1:]) |= [.] | .k[1][0] = 9`, `[.k, .k] | (.[0][0], .[0][1:], .[1][1:]) |= [.]`, `to_entries | (.[0], .[1:2]) |= [.] | length`,
+		`reduce (1, 2) as $i (.; (.k[0], .k[1:]) |= [.])`, `(.k[0], .k[1:]) |= [.] | (.k[0], .k[1:]) |= [.]`, `del(.k[0], .k[1:2])`, `delpaths([["k", 0], ["k", {"start": 1, "end": 2}]])`, `(.k[0], .k[1:2]) |= empty`, `(.k[1:2], .k[0]) |= empty`, `pick(.k[1:])?`, `(.k[0], .k[1:]) |= (.. |= .)`,
+	} {
+		out = append(out, struct{ Src, In string }{"(" + src + "), .", objIn})
+	}
 	return out
 }()
 
@@ -514,6 +539,42 @@ var BigOperands = func() []struct{ Src, In string } {
 				src := strings.ReplaceAll(strings.ReplaceAll(b, "X", x), "Y", y)
 				out = append(out, struct{ Src, In string }{src + ", " + x + ", " + y, BigObjJSON})
 			}
+		}
+	}
+	return out
+}()
+
+// ErrorSites: every way a run-time error can be raised (by each kind of instruction, in and out
+// of path tracking, by natives, by rethrowing handlers) placed in every calling context, with and
+// without backtrack points left behind it. After an error has been emitted the iterator must
+// still advance; what the next call resumes depends on the instruction that raised the error and
+// on what it left on the stack.
+var ErrorSites = func() []struct{ Src, In string } {
+	errs := []string{
+		// iteration
+		".[]", "1 | .[]", `"s"[]`, "path([1][])", "path([][])", "path({a:1}[])", "path({}[])", "path(1 | .[])", "path(.. | .[])", "[paths] | .[][]",
+		"path([1, 2] | .[])", "path(first([1][]))", "del([1][])", "([1][]) = 2", "([1][]) |= 2", "paths([1][])", "path({a: [1]} | .a[])", "path(. as $p | [1][])", "path(getpath([\"a\"]) | [3][])",
+		"path(.[]?, [1][])", "path(([1][])?)", "path(try [1][] catch .)", "path(limit(1; [1][]))", "to_entries | path(.[][])", "path(select([1][]))",
+		// indexing
+		".a", ".[0]", "1 | .a", `"s" | .a`, "path(1 | .a)", "path([1] | .[0])", "path({a: 1} | .a)", "path([1] | .a)", ".a.b.c", `.["a"]`, ".[1:]", `"abc" | .[{}]`, ".[[1]]", "path(.[1:] | .a)", ".[\"a\", 0]", `.a["b"]`,
+		"path({a: 1}.a)", "path([1][0])", "path(\"abc\"[0])", "path(1 as $p | [$p][0])",
+		// path end and path functions
+		"path(1)", "path([1] | first)", "path(1, .)", "path(., 1)", "path(. + 1)?", "path(tostring)", "path(if . then 1 else . end)", "path(.. | 1)", "paths(1)", "getpath([\"a\"; 1])?", "getpath([\"a\", \"b\"])", "getpath(1)", "setpath(1; 2)", "setpath([\"a\"]; 1)", "setpath([0]; 1)", "delpaths(1)", "delpaths([[\"a\"]])", "del(.a)", "del(.[0])", "del(1)", "to_entries", "pick(.a)", "pick(1)", "pick(first)",
+		// natives and operators
+		"error", "error(\"x\")", "error(null)", "error({a: 1})", "error(error)", "1 + \"a\"", "{} - 1", "[] | implode", "\"x\" | tonumber", "\"{\" | fromjson", "\"%\" | @base64d", "\"a\" | test(\"(\")", "[1] | join(\",\") | error", "{(1): 2}", "{a: 1} | .[0]", "[1] | has(\"a\")", "keys", "length | error", "ltrimstr(1) | error", "splits(1)", "range(\"a\")", "limit(\"a\"; 1)", "input", "inputs", "$__prog_args?", "tojson | error", "ascii", "[1, [2]] | flatten(-1)", "tostring | error", "infinite | tojson | error", "nan | error", "halt_error", "halt_error(1)", "halt", "[.] | halt_error", "\"bye\\n\" | halt_error",
+		// handlers that rethrow, labels
+		"try error(\"x\") catch error", "try error catch error(.)", "(error(\"x\"))?", "try (try error(\"x\") catch error) catch error", ".a? | error", "label $e | error(\"x\")", "label $e | (break $e), error(\"y\")", "label $e | try break $e catch .", "first(error(\"x\"))", "limit(1; error(\"x\"))", "isempty(error(\"x\"))", "error(\"x\") // 1", "(1, error(\"x\")) // 2", "reduce error(\"x\") as $p (0; .)", "foreach error(\"x\") as $p (0; .)", "reduce (1, 2) as $p (0; error(\"x\"))", "foreach (1, 2) as $p (0; error(\"x\"))", "foreach (1, 2) as $p (0; .; error(\"x\"))", "error(\"x\") as $p | 1", "error(\"x\") as [$p] | 1", ". as [$p] ?// $p | error(\"x\")", "[error(\"x\")]", "{a: error(\"x\")}", "{(error(\"x\")): 1}", "if error(\"x\") then 1 else 2 end", "if . then error(\"x\") else error(\"y\") end", "error(\"x\") | 1", "-(error(\"x\"))", "error(\"x\") + 1", "1 + error(\"x\")", ".[error(\"x\")]", ".[error(\"x\"):]", "def ef: error(\"x\"); ef", "def ef(g): g; ef(error(\"x\"))", "def ef($p): 1; ef(error(\"x\"))", "def ef: def eg: error(\"x\"); eg; ef", "recurse(error(\"x\"))", "recurse(if . == null then 1 else error(\"x\") end)", "[limit(3; repeat(error(\"x\")))]", "until(false; error(\"x\"))", "walk(error(\"x\"))", "map(error(\"x\"))", "map_values(error(\"x\"))", "with_entries(error(\"x\"))", "sort_by(error(\"x\"))", "group_by(error(\"x\"))", "min_by(error(\"x\"))", "any(error(\"x\"))", "all(error(\"x\"))", "add(error(\"x\"))", "select(error(\"x\"))", "tostream | error", "fromstream(error(\"x\"))", "fromstream(1)", "getpath(error(\"x\"))", "paths(error(\"x\"))", "path(error(\"x\"))", "(.a = error(\"x\"))", "(.a |= error(\"x\"))", "(.a += error(\"x\"))", "(.[] = error(\"x\"))", "(.[] |= error(\"x\"))", "(error(\"x\")) = 1", "(error(\"x\")) |= 1", "del(error(\"x\"))", "to_entries[] | error", "input_line_number | error", "$ENV | error", "env | .[] | error", "ltrimstr(error(\"x\"))", "sub(\"a\"; error(\"x\"))", "[match(\"a\"; \"g\")] | error", "splits(\"a\") | error", "@json \"\\(error(\"x\"))\"", "\"\\(error(\"x\"))\"", "@base64 \"\\(1 | error)\"", "$__loc__ | error", "getpath([\"a\"]) | error", "limit(2; ., error(\"x\"), .)", "first(empty, error(\"x\"))", "last(1, error(\"x\"))", "nth(1; 1, error(\"x\"))", "until(. == 3; error(\"x\"))", "while(true; error(\"x\"))", "[.[]? | error(\"x\")]", "combinations | error", "ascii_downcase", "explode", "ltrimstr(\"a\") | error", "tojson | fromjson | error", "@sh", "@csv", "@tsv", "@uri | error", "@html \"\\(error(\"x\"))\"", "splits(\"(\")", "test(\"a\"; \"z\")", "capture(\"(\")", "scan(1)", "gsub(\"\"; \"a\") | error", "ascii(1)?, error(\"x\")", "implode", "tojson | .[0] | error", "env.PATH | error", "input_filename | error", "now | error", "mktime", "gmtime", "strftime(\"%Y\")", "strptime(\"%Y\")", "todate", "fromdate", "dateadd(\"seconds\"; 1)?", "getpath([\"a\", 0, \"b\"])", "splits(\"a\"; 1)", "ltrimstr(1, 2) | error", "min_by(1, error(\"x\"))", "error(1, 2)", "error(\"a\", \"b\")", "error(empty)", "(error(\"a\"), error(\"b\"))", "(error(\"a\"), 1, error(\"b\"), 2)", "[1, 2][] | error", ".. | error", ".[]? | error", "(1, 2, 3) | if . == 2 then error(\"x\") else . end", "range(3) | [.] | .a", "range(3) | path([1][])", "(1, 2) | path(1)", "(1, 2) | {(.): 1}",
+	}
+	ctxs := []string{
+		"E", "(E), 1", "1, (E)", "(E), (E)", "[1, 2][] | (E)", ".[]? | (E)", "try (E) catch .", "try (E) catch error", "(E)?", "[(E)]", "[(E)?]", "first(E)", "limit(2; E)", "label $o | (E)", "label $o | (E), break $o", "(E) as $q | $q", "(E) // 1", "1 // (E)", "{a: (E)}", "path(E)", "path(E)?", "[paths(E)]?", "def cf: E; cf", "def cf(g): g; cf(E)", "def cf(g): g, g; cf(E)", "def cf($q): $q; cf(E)", "reduce (E) as $q (0; . + 1)", "foreach (E) as $q (0; . + 1)", "reduce (1, 2) as $q (0; E)", "if . then (E) else (E) end", "(E) | (E)", "isempty(E)", "[limit(3; repeat(E))]", "(E) | select(. == 1)", "[.[]? | (E)?]", ". as $q | (E)", "(E), (E)?, (E)", "try ((E), 1) catch (., 2)", "((E)?), 1", "(1, (E)) | tostring", "try error(E) catch .", "(E) |= .", "(E) = 1", "del(E)", ".[]? |= (E)", ".a = (E)", "to_entries? | (E)", "first((E), 1)", "first(1, (E))", "limit(1; 1, (E))", "(label $o | (E)), 1", "[range(2) | (E)]", "[range(2) | try (E) catch .]",
+	}
+	ins := []string{"null", `[1,[2],{"a":3}]`, `{"a":[1,2],"b":null}`, `"abc"`, "1"}
+	var out []struct{ Src, In string }
+	k := 0
+	for _, c := range ctxs {
+		for _, e := range errs {
+			k++
+			out = append(out, struct{ Src, In string }{strings.ReplaceAll(c, "E", e), ins[k%len(ins)]})
 		}
 	}
 	return out
